@@ -97,7 +97,9 @@ pub fn generate(seed: u64, thorough: bool) -> Vec<Value> {
                 "header_filters": null, "body_filters": null, "log_override": null, "reset": null, "stop": null, "redirect_unit_id": null, "target_hash": null,
                 "configuration_log_unit_id": null, "configuration_reset_unit_id": null, "examples": null});
             let code = *rng.pick(&[301u64, 302, 307]);
-            let mut rules: Vec<Value> = match rng.below(3) {
+            let mut rules: Vec<Value> = match rng.below(4) {
+                // NOT a loop: the target differs from the visited URL by letter case only (paths are case-sensitive here)
+                3 => { c["example"]["url"] = json!("http://other.net/B"); c["cfg"]["ignore_path_and_query_case"] = json!(false); c["domains"] = json!(["example.org", "other.net"]); vec![plain("r0", "/B", "/b", code)] }
                 0 => vec![plain("r0", "/b", "/b", code)],
                 1 => vec![plain("r0", "/b", "http://other.net/b", code)],
                 _ => vec![plain("r0", "/b", "http://other.net/z", code), plain("r1", "/z", "http://other.net/b", code)],
